@@ -234,7 +234,7 @@ let () =
         | ["embfile"; p; b] -> cur.embfiles <- (prs (unhex p), unhex b) :: cur.embfiles
         | ["base"; "emb"] | ["base"; "embd"] -> cur.bases <- KEmb (List.rev cur.embfiles) :: cur.bases; cur.embfiles <- []
         | ["base"; "embempty"] -> cur.bases <- KEmb [] :: cur.bases; cur.embfiles <- []
-        | ["base"; "physfix"] -> cur.bases <- KPhysDir (List.rev cur.embfiles) :: cur.bases; cur.embfiles <- []
+        | ["base"; "physfix"] | ["base"; "physlnk"] -> cur.bases <- KPhysDir (List.rev cur.embfiles) :: cur.bases; cur.embfiles <- []
         | "fs" :: rest ->
             let k = nat_of_int (List.length cur.cfg) in
             let get j = List.nth (List.rev cur.cfg) (int_of_string j) in
